@@ -119,10 +119,12 @@ TimerId TimerQueue::addTimer(TimerCallback cb,
                              double interval)
 {
   Timer* timer = new Timer(std::move(cb), when, interval);
+  // read it now: once handed over, the loop thread may run and delete the timer
+  const int64_t sequence = timer->sequence();
   loop_->runInLoop(
       std::bind(&TimerQueue::addTimerInLoop, this, timer));
   MUDUO_VERIF_POINT("TimerQueue::addTimer:handedOver", timer);
-  return TimerId(timer, timer->sequence());
+  return TimerId(timer, sequence);
 }
 
 void TimerQueue::cancel(TimerId timerId)
